@@ -347,4 +347,32 @@ theorem first_boot_cut_between_genesis :
   obtain ⟨c', e, _, _, _, r⟩ := rep_restart rep_c1 c1.mirror [g0, gA]
   exact ⟨c1.disk, c1.mirror, c', hd, e, r⟩
 
+/-! ## F. Remaining read paths -/
+
+/-- `GetSyncGroupsById(id)` of the listed group at index `i` returns exactly the next (at most
+    five) listed groups — what a peer that is behind receives. -/
+theorem sync_by_id_exact {l : List Group} {c : Chain} (r : Rep l c) (i : Nat) (g : Group)
+    (hg : l[i]? = some g) (hb : l.length + 6 < lenBound) :
+    syncById c.disk g.id = ((l.drop (i + 1)).take 5).map some := syncById_rep r i g hg hb
+
+/-- `getFirstGroupBelowHeight(x)` (common-ancestor choice of the fork switch) returns the newest
+    listed group created at or below block height `x`, `none` only if no listed group is. -/
+theorem first_below_is_newest_listed {l : List Group} {c : Chain} (r : Rep l c) (x : Nat) :
+    firstBelow c x = l.reverse.find? (fun g => decide (g.create ≤ x)) := firstBelow_rep r x
+
+/-- `height()` is the index of the last group. -/
+theorem top_height_is_last_index {l : List Group} {c : Chain} (r : Rep l c) :
+    topHeight c = l.length - 1 ∧ getGroupByHeight c.disk (topHeight c) = some c.last := by
+  have h := topHeight_rep r
+  exact ⟨h, by rw [h]; exact r.byHeight_lt r.last_idx⟩
+
+/-- The "genesis" that `availableGroupsAt` falls back to (`GetGroupByHeight(0)`) is `l[0]`. -/
+theorem height_zero_is_genesis {l : List Group} {c : Chain} (r : Rep l c) :
+    getGroupByHeight c.disk 0 = l.head? := by
+  cases l with
+  | nil => exact absurd rfl r.ne
+  | cons a t => simpa using r.byHeight_lt (i := 0) (g := a) (by simp)
+
+example : firstBelow c2 0 = some g0 := by decide
+
 end Rangers.Props.C19
